@@ -82,8 +82,24 @@ func arithInterp(id int) parsley.Interpreter {
 }
 
 // evalCase runs parsley.Evaluate for an `eval` case on the real library
-func evalCase(c *Sexp, root parsley.Parser) (real string, val interface{}, err error, panicked interface{}) {
+// evalCase evaluates the case's input with the given parser value AFTER that same value has been used for other inputs
+// (decoys: each in a context of its own, outcome ignored): a parser value describes a language, so what it was used for
+// before must not matter — a combinator, terminal or interpreter that keeps something of an earlier parse shows here.
+func evalCase(c *Sexp, root parsley.Parser, decoys [][]byte, afterDecoys func()) (real string, val interface{}, err error, panicked interface{}) {
 	files, target := caseFiles(c)
+	for _, d := range decoys {
+		func() {
+			defer func() { recover() }()
+			df := make([]fileSpec, len(files))
+			copy(df, files)
+			df[target] = fileSpec{files[target].name, d}
+			dctx, _ := newCtx(df, target)
+			parsley.Evaluate(dctx, root)
+		}()
+	}
+	if afterDecoys != nil {
+		afterDecoys()
+	}
 	ctx, _ := newCtx(files, target)
 	func() {
 		defer func() { panicked = recover() }()
@@ -390,7 +406,8 @@ func c05Gen(rng *rand.Rand, tier string, i int) *Sexp {
 func c05Exec(c *Sexp) Outcome {
 	rec := newRecorder(400000)
 	g := buildGrammar(findArg(c, "env"), findArg(c, "root")[0], rec, false, arithInterp, nil)
-	real, val, err, pan := evalCase(c, g.root)
+	raw0, _ := caseFiles(c)
+	real, val, err, pan := evalCase(c, g.root, [][]byte{[]byte("(1 + 2) * 3"), raw0[0].raw[:len(raw0[0].raw)/2]}, func() { *rec = *newRecorder(400000) })
 	if be, ok := pan.(budgetExceeded); ok {
 		// the harness's own work budget (long expressions of the thorough tier): skipped, never counted as a pass —
 		// an earlier version reported it as "Evaluate panicked": a false alarm of the check, corrected
@@ -674,9 +691,9 @@ func valuesEqual(a, b interface{}) bool {
 
 func c16Exec(c *Sexp) Outcome {
 	root := combinator.Sentence(text.Trim(exjson.NewParser()))
-	real, val, err, pan := evalCase(c, root)
 	files, _ := caseFiles(c)
 	doc := files[0].raw
+	real, val, err, pan := evalCase(c, root, [][]byte{[]byte(`{"a": [1, 2.5, "x\n"], "b": null}`), doc[:len(doc)/2]}, nil)
 	kind := findArg(c, "kind")[0].Atom
 	dec := encjson.NewDecoder(bytes.NewReader(doc))
 	dec.UseNumber()
